@@ -45,7 +45,10 @@ fn learn1(b: usize, nb: usize, l: usize, bh: &CtlBH, key: u64) -> (u64, usize) {
             return (*v, x / b);
         }
     }
-    panic!("tool error: probe insert left no fingerprint in the table");
+    // the insert left nothing in the table (or was refused): no fingerprint can be attributed to the key.  The
+    // mechanism-level attributes are then meaningless for it (fingerprint 0 = "free slot"), the property level does
+    // not use them: it works with the observational classes and judges the calls on this key like any other.
+    (0, 0)
 }
 /// second candidate bucket: fill the first bucket with copies, the next copy lands in i2
 fn learn2(b: usize, nb: usize, l: usize, bh: &CtlBH, key: u64, i1: usize) -> usize {
@@ -408,10 +411,19 @@ pub fn drive(args: &[String]) {
             1 => CtlBH::collide(rng.next(), 3 + rng.below(4) as u32),
             _ => CtlBH::identity(),
         };
+        // the first scenarios pin the extreme shapes: widest / narrowest fingerprints with boundary hash values
+        // (identity hasher: the key IS the hash, e.g. u64::MAX), smallest table
+        let (b, nb, l, bh) = match sci {
+            0 => (2usize, 2usize, 64usize, CtlBH::identity()),
+            1 => (2, 4, 63, CtlBH::identity()),
+            2 => (2, 2, 2, CtlBH::identity()),
+            3 => (3, 2, 64, CtlBH::mix(rng.next())),
+            _ => (b, nb, l, bh),
+        };
         let nkeys = 10 + rng.below(9) as usize;
-        let mut keys: Vec<u64> = vec![];
+        let mut keys: Vec<u64> = if sci < 3 { vec![u64::MAX, u64::MAX - 1, 1 << 63, (1 << 63) - 1, 0, 1, 2, 3] } else { vec![] };
         while keys.len() < nkeys {
-            let k = if rng.chance(1, 2) { rng.below(64) } else { rng.next() };
+            let k = match rng.below(7) { 0..=2 => rng.below(64), 3 => boundary_key(&mut rng), _ => rng.next() };
             if !keys.contains(&k) {
                 keys.push(k);
             }
